@@ -2090,3 +2090,136 @@ func c09r14(rc *core.RC) {
 		rc.Unknown("decoder/captured-skips", token.NoPos, "found %d stream functions that capture a skipped value (confirmed: funcDecoder.DecodeStream, decodeStreamUnmarshaler, decodeStreamUnmarshalerContext, the text unmarshaler)", n)
 	}
 }
+
+// ---- C09.R15 the buffer and the stream method of a decoder call the same helpers ----
+
+// Every decoder type has two methods that must decide alike: Decode (buffer mode) and DecodeStream. Whatever one of
+// them calls to validate, convert, allocate or store (validNumber, parseInt, unsafe_New, typedmemmove, the element
+// decoder, the error constructors of the type) the other has to call too. The two sets of module callees are
+// compared under the naming of the two modes (validateNull ~ nullBytes, decodeByte ~ decodeStreamByte, Decode ~
+// DecodeStream, …); what is only plumbing of one mode (reading the window, refilling, offsets) is left out.
+func c09r15(rc *core.RC) {
+	p := rc.P
+	plumbing := map[string]bool{"char": true, "read": true, "reset": true, "totalOffset": true, "equalChar": true, "stat": true, "statForRetry": true, "bufptr": true, "skipWhiteSpace": true, "PrepareForDecode": true}
+	// buffer-mode name -> common name; stream-mode name -> common name
+	common := map[string]string{
+		"validateNull": "null-literal", "nullBytes": "null-literal",
+		"validateTrue": "true-literal", "trueBytes": "true-literal",
+		"validateFalse": "false-literal", "falseBytes": "false-literal",
+		"decodeByte": "token", "decodeStreamByte": "token",
+		"decodeBinary": "binary", "decodeStreamBinary": "binary",
+		"Decode": "decode", "DecodeStream": "decode",
+		"decodeEmptyInterface": "empty-interface", "decodeStreamEmptyInterface": "empty-interface",
+		"decodeUnmarshaler": "unmarshaler", "decodeStreamUnmarshaler": "unmarshaler",
+		"decodeUnmarshalerContext": "unmarshaler-context", "decodeStreamUnmarshalerContext": "unmarshaler-context",
+		"decodeTextUnmarshaler": "text-unmarshaler", "decodeStreamTextUnmarshaler": "text-unmarshaler",
+		"keyDecoder": "key-decoder", "keyStreamDecoder": "key-decoder",
+	}
+	type methods struct{ buf, stream *ast.FuncDecl }
+	byRecv := map[string]*methods{}
+	var order []string
+	for _, fd := range p.Funcs("decoder") {
+		if fd.Recv == nil || fd.Body == nil || (fd.Name.Name != "Decode" && fd.Name.Name != "DecodeStream") {
+			continue
+		}
+		r := core.RecvString(fd.Recv.List[0].Type)
+		if byRecv[r] == nil {
+			byRecv[r] = &methods{}
+			order = append(order, r)
+		}
+		if fd.Name.Name == "Decode" {
+			byRecv[r].buf = fd
+		} else {
+			byRecv[r].stream = fd
+		}
+	}
+	calleeSet := func(fd *ast.FuncDecl) map[string]bool {
+		info := p.Info(fd)
+		out := map[string]bool{}
+		ast.Inspect(fd.Body, func(m ast.Node) bool {
+			c, ok := m.(*ast.CallExpr)
+			if !ok {
+				return true
+			}
+			var id *ast.Ident
+			switch f := c.Fun.(type) {
+			case *ast.Ident:
+				id = f
+			case *ast.SelectorExpr:
+				id = f.Sel
+			}
+			if id == nil {
+				return true
+			}
+			var pkgPath string
+			switch o := info.Uses[id].(type) {
+			case *types.Func:
+				if o.Pkg() != nil {
+					pkgPath = o.Pkg().Path()
+				}
+			case *types.Var: // a function stored in a field (d.op, d.keyDecoder)
+				if o.Pkg() != nil {
+					pkgPath = o.Pkg().Path()
+				}
+			}
+			if !strings.HasPrefix(pkgPath, core.ModPath) {
+				return true
+			}
+			name := id.Name
+			if plumbing[name] {
+				return true
+			}
+			if cn, ok := common[name]; ok {
+				name = cn
+			}
+			if strings.HasSuffix(pkgPath, "internal/errors") {
+				name = "errors." + name
+			}
+			out[name] = true
+			return true
+		})
+		return out
+	}
+	// differences confirmed by reading: what one mode reports through a helper the other reports itself
+	accepted := map[string]string{
+		"(*arrayDecoder)/errors.ErrInvalidCharacter":    "buffer mode names the offending byte itself; stream mode reports it through skipWhiteSpace's caller (errors.ErrExpected is shared)",
+		"(*sliceDecoder)/errors.ErrInvalidCharacter":    "as for arrayDecoder",
+		"(*funcDecoder)/true-literal":                   "the stream twin works on the text s.skipValue stepped over, which skipValue has read letter by letter (trueBytes); the buffer twin validates the literal again",
+		"(*funcDecoder)/false-literal":                  "as for true-literal",
+		"(*floatDecoder)/errors.ErrUnexpectedEndOfJSON": "buffer mode reports a token that ends the input in Decode; stream mode does in decodeStreamByte",
+	}
+	n := 0
+	for _, r := range order {
+		m := byRecv[r]
+		if m.buf == nil || m.stream == nil {
+			continue
+		}
+		n++
+		fn := "decoder." + r
+		rc.Touch(fn + ".Decode")
+		rc.Touch(fn + ".DecodeStream")
+		a, b := calleeSet(m.buf), calleeSet(m.stream)
+		var onlyBuf, onlyStream []string
+		for k := range a {
+			if !b[k] && accepted[r+"/"+k] == "" {
+				onlyBuf = append(onlyBuf, k)
+			}
+		}
+		for k := range b {
+			if !a[k] && accepted[r+"/"+k] == "" {
+				onlyStream = append(onlyStream, k)
+			}
+		}
+		sort.Strings(onlyBuf)
+		sort.Strings(onlyStream)
+		key := fn + "/buffer-and-stream-call-the-same-helpers"
+		if len(onlyBuf) == 0 && len(onlyStream) == 0 {
+			rc.OK(key, m.buf.Pos(), "Decode and DecodeStream call the same %d module helpers (mode naming and window plumbing aside)", len(a))
+		} else {
+			rc.Bad(key, m.stream.Pos(), "Decode calls %s that DecodeStream does not, DecodeStream calls %s that Decode does not: a validation, conversion, allocation or error that only one mode performs makes Decoder.Decode and Unmarshal disagree", orNone(strings.Join(onlyBuf, ", ")), orNone(strings.Join(onlyStream, ", ")))
+		}
+	}
+	if n < 18 {
+		rc.Unknown("decoder/method-twins", token.NoPos, "found %d decoder types with both Decode and DecodeStream (confirmed: 20)", n)
+	}
+}
